@@ -136,8 +136,9 @@ def run(tier: str, seed: int) -> CompResult:
                                             "down-posted-twice", list(seq_l), {}))
         term = next((i for i, e in enumerate(evs) if e in ("errordown", "workerfinished")), None)
         if term is not None and term != len(evs) - 1:
-            res.violations.append(Violation("C17", "ctl.receiver", f"events {evs[term + 1:]} of a worker already written off were passed on",
-                                            "events-after-down", list(seq_l), {}))
+            for pr in ("C17", "C04"):
+                res.violations.append(Violation(pr, "ctl.receiver", f"events {evs[term + 1:]} of a worker already written off were passed on "
+                                                "(its tests were re-dispatched: they get a second verdict)", "events-after-down", list(seq_l), {}))
         body = [e for e in evs if e not in ("errordown", "workerfinished")]
         if body != produced[: len(body)]:
             res.violations.append(Violation("C04", "ctl.receiver", f"posted {body}, the worker produced {produced}", "posted-out-of-order", list(seq_l), {}))
